@@ -1126,6 +1126,9 @@ def big_history_table_stream(count=4300):
     ops = ['tnew 900']
     for i in range(count):
         ops.append('tadd 900 %s %s' % (hx(b'n%d' % (i % 97)), hx(b'v%d' % i)))
+        if i in (4094, 4096, 4097, 4099, 4110) or i % 1024 == 1023:
+            for j in range(max(i - 70, 0), i + 1, 3):          # every third live entry, oldest to newest
+                ops.append('tsearch 900 %s %s' % (hx(b'n%d' % (j % 97)), hx(b'v%d' % j)))
         if i % 500 == 499 or i > count - 4:
             ops.append('tsearch 900 %s %s' % (hx(b'n%d' % (i % 97)), hx(b'v%d' % i)))
             ops.append('tsearch 900 %s %s' % (hx(b'n%d' % ((i - 20) % 97)), hx(b'v%d' % (i - 20))))
